@@ -333,10 +333,10 @@ def replay_stochastic(ctx, jb, option, script, ss, draws, case):
 
 def run(ctx):
     rng = ctx.rng
-    nsys = ctx.n(36, 900)
+    nsys = ctx.n(36, 500)
     jobs = []
     for k in range(nsys):
-        if ctx.time_left() < 25:
+        if C1.out_of_time(ctx):
             ctx.notes.append("stopped generating after %d systems (time budget)" % k)
             break
         kind = "grid" if k % 2 == 0 else "graph"
